@@ -177,7 +177,7 @@ def s_case(draw, max_len=5):
 
 def parts(tier):
     if tier == 'quick':
-        return [Part('linear', check, strategy=s_case(4), examples=20, shards=4)]
+        return [Part('linear', check, strategy=s_case(4), examples=40, shards=4)]
     return [Part('linear', check, strategy=s_case(7), examples=300, shards=16)]
 
 
